@@ -105,7 +105,7 @@ func pickReq(t *core.Tape) hreq {
 	case 3:
 		r.OpName = sp("Q")
 	}
-	switch t.Choose(6, "vars") {
+	switch t.Choose(7, "vars") {
 	case 1:
 		r.HasVars, r.Vars = true, map[string]any{"b": "one"}
 	case 2:
@@ -116,6 +116,9 @@ func pickReq(t *core.Tape) hreq {
 		r.HasVars, r.Vars = true, map[string]any{"x": true, "y": false, "b": "xy"}
 	case 5:
 		r.HasVars, r.Vars = true, map[string]any{"x": false, "y": true, "b": "yx"}
+	case 6:
+		// expensive under the complexity limit (echo costs the length of its argument)
+		r.HasVars, r.Vars = true, map[string]any{"b": "a-blob-that-is-longer-than-the-complexity-limit-allows"}
 	}
 	r.Accept = []string{"", "application/json", "application/graphql-response+json", "*/*"}[t.Choose(4, "accept")]
 	if r.Transport == "post" && t.Bool(1, 8, "rawbody") {
@@ -268,10 +271,18 @@ func newServer(w *core.World, v *uni.Variant, park bool, planSeed uint64) (*hand
 	srv.SetQueryCache(lru.New[*ast.QueryDocument](2))
 	srv.Use(extension.Introspection{})
 	srv.Use(extension.AutomaticPersistedQuery{Cache: lru.New[string](8)})
+	// echo costs the length of its argument: the same (cached) document is within the limit
+	// with one set of variables and over it with another
+	srv.Use(extension.FixedComplexityLimit(30))
 	// headers of the request are visible to resolvers through the operation context: echo them
 	// into an extension so that a leak between requests shows up in the body
 	srv.AroundResponses(func(ctx context.Context, next graphql.ResponseHandler) *graphql.Response {
 		resp := next(ctx)
+		if park {
+			// a seam between "the response was produced" and "the transport writes it": other
+			// requests can be served completely inside this window
+			w.Park("resp", fmt.Sprintf("r%v:resp", ctx.Value(reqKey{})), ctx)
+		}
 		if resp != nil && graphql.HasOperationContext(ctx) {
 			oc := graphql.GetOperationContext(ctx)
 			if h := oc.Headers.Get("X-Client"); h != "" {
